@@ -23,7 +23,7 @@ ASSUMPTIONS = [
     'cloud deck: only the transit geometry is judged (emission indexes per-layer opacities differently)',
 ]
 RULE = RULE + ' ' + 'Also: the pressure range of the same model moved under a cloud deck, layer pressures as whole-number pascals in an integer array profile; cases stratified by kind.'
-REQUIRED = {'pressure:integer-array': 0.1, 'cloud-range-moved:deck-inside': 0.02, 'kind:clouds': 0.2, 'kind:flat': 0.2, 'kind:lee': 0.2, 'bound:unset': 0.08, 'window:inside': 0.04}
+REQUIRED = {'cloud-range-moved:after-refused-point': 0.03, 'pressure:integer-array': 0.1, 'cloud-range-moved:deck-inside': 0.02, 'kind:clouds': 0.2, 'kind:flat': 0.2, 'kind:lee': 0.2, 'bound:unset': 0.08, 'window:inside': 0.04}
 # coverage-guided extra (thorough tier): pure-Python taurex modules on this property's path, instrumented by atheris
 FUZZ = {'include': ['taurex.contributions.simpleclouds', 'taurex.contributions.flatmie', 'taurex.contributions.leemie'], 'runs': 12000, 'workers': 4}
 
@@ -193,6 +193,18 @@ def check(case):
                 out.applies('cloud-range-moved')
                 m['atm_max_pressure'] = new_max
                 m['atm_min_pressure'] = new_min
+                mols_ = [g['mol'] for g in w['gases'] if g.get('table') is not None and g.get('logtop') is None and g['mol'] in m.fittingParameters]
+                if mols_ and case.get('move', 0.0) > 30.0:
+                    # the point with the moved range is first tried together with an abundance above one and refused (the
+                    # caller catches the invalid-model error), then evaluated with the abundance put back
+                    keep_ = float(m[mols_[0]])
+                    m[mols_[0]] = 1.5
+                    try:
+                        with np.errstate(all='ignore'):
+                            m.model()
+                    except Exception:
+                        out.cls('cloud-range-moved:after-refused-point')
+                    m[mols_[0]] = keep_
                 with np.errstate(all='ignore'):
                     rr = cut(out, 'model@range-moved', m.model)
                 Pn = np.array(m.pressureProfile, dtype=float, copy=True)
